@@ -24,3 +24,35 @@ Theorem C18_suffixed_key_id_determines_partition : forall p q svc prod suf,
   ik_id_suffixed p svc prod suf = ik_id_suffixed q svc prod suf -> p = q.
 Proof. exact ik_id_suffixed_inj. Qed.
 Print Assumptions C18_suffixed_key_id_determines_partition.
+
+(* "an independent implementation written from the documentation decrypts everything the SDK emits": the reader written from the documented
+   shape (Format/JsonParse.v: literals in the documented order, Go's string escapes incl. \u00XX, decimal stamps with sign, base64 fields,
+   null for absent parts, Revoked and ParentKeyMeta only when present) recovers EVERY key record and EVERY data row record from the
+   documented-shape printer's output - ids are arbitrary byte strings, stamps arbitrary integers, keys and data arbitrary bytes; whatever
+   follows the value is left untouched.  Hence the shape is unambiguous.  The printer's output is the SDK's, byte for byte (correspondence),
+   and the reader is also run on the SDK's bytes in the comparison. *)
+From Asherah Require Import Format.JsonParse.
+
+Theorem C18_reader_recovers_every_key_record : forall k r, ekr_ok k -> parse_ekr (print_ekr k ++ r) = Some (k, r).
+Proof. exact parse_print_ekr. Qed.
+Print Assumptions C18_reader_recovers_every_key_record.
+
+Theorem C18_reader_recovers_every_data_row_record : forall d r, drr_ok d -> parse_drr (print_drr d ++ r) = Some (d, r).
+Proof. exact parse_print_drr. Qed.
+Print Assumptions C18_reader_recovers_every_data_row_record.
+
+Theorem C18_json_shape_is_unambiguous : forall d d', drr_ok d -> drr_ok d' -> print_drr d = print_drr d' -> d = d'.
+Proof. exact print_drr_inj. Qed.
+Print Assumptions C18_json_shape_is_unambiguous.
+
+Theorem C18_key_record_shape_is_unambiguous : forall k k', ekr_ok k -> ekr_ok k' -> print_ekr k = print_ekr k' -> k = k'.
+Proof. exact print_ekr_inj. Qed.
+Print Assumptions C18_key_record_shape_is_unambiguous.
+
+Theorem C18_every_escaped_character_reads_back : forall c r, parse_char (esc_char c ++ r) = Some (c, r).
+Proof. exact parse_char_esc. Qed.
+Print Assumptions C18_every_escaped_character_reads_back.
+
+Theorem C18_every_stamp_reads_back : forall z r, no_digit_head r -> parse_int (itoa z ++ r) = Some (z, r).
+Proof. exact parse_int_itoa. Qed.
+Print Assumptions C18_every_stamp_reads_back.
